@@ -296,6 +296,13 @@ def native_layouts(chk):
         layouts[nm + ' no final line feed'] = t.rstrip('\n')
         layouts[nm + ' blank lines + multi-byte header'] = '// 版权所有 © 2022 — ünïcödé header €€€\n\n\n' + t.replace('\n', '\n\n')
         layouts[nm + ' CR only inside a line'] = t.replace('{\n', '{ \r \n')
+    # layouts that differ from the probe only in front of the first token: what a reader of the file might trim
+    for nm, t in (('probe', base),):
+        layouts[nm + ' three leading blank lines'] = '\n\n\n' + t
+        layouts[nm + ' leading CRLF blank lines'] = '\r\n\r\n' + t.replace('\n', '\r\n')
+        layouts[nm + ' leading blanks, tab and blank lines'] = '  \t \n \n\t\n' + t
+        layouts[nm + ' one leading line feed, trailing blank lines'] = '\n' + t + '\n\n  \n'
+        layouts[nm + ' leading no-break space line'] = '\u00a0\n' + t
     jobs, meta = [], []
     for lname, text in layouts.items():
         p = chk.native.file(text)
@@ -318,6 +325,58 @@ def native_layouts(chk):
         else:
             chk.ok()
     chk.sample({'native layouts': sorted(layouts), 'detectors': len(oracle.MIR_NAME)})
+    # the same layouts as files of a directory, through the compiled analyze_dir (the reader of the file is part of "the lines solstat
+    # reports for a file"): per file and pattern the lines must be those of the detector's own locations in the bytes of the file
+    import os, tempfile, shutil
+    from ..native import unhex
+    root = tempfile.mkdtemp(prefix='c02dir-', dir=chk.native.dir)
+    try:
+        fname = {}
+        for k, (lname, text) in enumerate(sorted(layouts.items())):
+            fname['L%02d.sol' % k] = (lname, text)
+            with open(os.path.join(root, 'L%02d.sol' % k), 'w', newline='') as fh:
+                fh.write(text)
+        by_cat = {}
+        for d in oracle.MIR_NAME:
+            by_cat.setdefault(oracle.CATEGORY[d], []).append(d)
+        cats = sorted(by_cat)
+        dres = chk.native.run([['analyze_dir', c, root, ','.join(by_cat[c])] for c in cats])
+        want_by = {}
+        for i, (lname, d, text) in enumerate(meta):
+            det = res[2 * i]
+            if det[0] == 'OK':
+                raw = text.encode()
+                want_by[(lname, d)] = sorted({1 + raw[:int(x.split(':')[0])].count(b'\n') for x in det[1].split(',') if x})
+        for c, r in zip(cats, dres):
+            chk.validated += 1
+            if r[0] != 'OK':
+                continue                               # panics are C04's subject
+            variants = {d.replace('_', '').lower(): d for d in by_cat[c]}      # `DivideBeforeMultiply` as printed by the runner -> name
+            import re
+            from ..prepare import REPO
+            for sub in ('optimizations', 'vulnerabilities', 'qa'):
+                try:
+                    for nm_, var_ in re.findall(r'"(\w+)"\s*=>\s*\w+::(\w+)', open(os.path.join(REPO, 'src/analyzer', sub, 'mod.rs')).read()):
+                        variants[var_.lower()] = nm_                  # the enum spells some variants differently (`ImmutableVarialbes`)
+                except OSError:
+                    pass
+            got_by = {}
+            for item in (r[1].split(';') if r[1] else []):
+                pat, hx, lines = item.split('|')
+                got_by[(unhex(hx), variants.get(pat.lower(), pat))] = [int(x) for x in lines.split(',') if x]
+            for fn, (lname, text) in fname.items():
+                for d in by_cat[c]:
+                    if (lname, d) not in want_by:
+                        continue
+                    got, want = got_by.get((fn, d), []), want_by[(lname, d)]
+                    if got != want:
+                        chk.violation('analyze_dir:%s:wrong-lines' % c,
+                                      'analyze_dir reports for the file with the layout `%s` and %s the lines %r, the detector\'s locations begin on lines %r' % (lname, d, got, want),
+                                      {'job': 'analyze_dir_layout', 'category': c, 'file_name': fn, 'detector': d, 'source': text, 'expected': want, 'observed': got})
+                    else:
+                        chk.ok()
+    finally:
+        shutil.rmtree(root, ignore_errors=True)
 
 
 def body(chk):
